@@ -596,6 +596,16 @@ pub fn c04(out: &mut Vec<String>, rng: &mut Rng, tier: &str) {
             out.push(unpaired_case::<f64>("C04", rand_conf(rng), &x64, &y64));
         }
     }
+    // f64 data so far out that the fourth powers of the spreads leave the f64 range (spreads beyond 1e77 or
+    // below 1e-77) while the standard error itself is an ordinary number: the documented effective dof is a
+    // ratio and does not depend on the unit of measurement
+    for sc64 in [1e-140f64, 1e-100, 1e-85, 1e85, 1e100, 1e140] {
+        for (na, nb) in [(3usize, 4usize), (2, 2), (7, 3), (5, 12)] {
+            let xs: Vec<f64> = (0..na).map(|_| (1.0 + rng.unit()) * sc64).collect();
+            let ys: Vec<f64> = (0..nb).map(|_| (0.5 + 2.0 * rng.unit()) * sc64).collect();
+            out.push(unpaired_case::<f64>("C04", rand_conf(rng), &xs, &ys));
+        }
+    }
     // balanced samples (equal sizes, equal spreads: the second is a shifted, reversed copy of the first):
     // the effective dof is at its maximum n_a + n_b
     for n in (2..40usize).step_by(if tier == "thorough" { 1 } else { 3 }) {
